@@ -119,6 +119,20 @@ pub fn run_line(line: &str) -> String {
         vec![("main.rssl".into(), probe_program(name, k))]
     } else if let Some(name) = spec[0].strip_prefix("c07:") {
         match crate::c07::program_source(name) { Some(t) => vec![("main.rssl".into(), t)], None => return "BAD-CASE".into() }
+    } else if let Some(k) = spec[0].strip_prefix("gfx:") {
+        // a vertex + pixel pipeline with fixed-function state: formats, blending (shared and per attachment), culling
+        let k: usize = k.parse().unwrap_or(0);
+        const STATES: &[&str] = &[
+            "RenderTargetFormat0 = \"R8G8B8A8_UNORM\";",
+            "RenderTargetFormat0 = \"R8G8B8A8_UNORM\"; BlendState = { BlendEnabled = true; SrcBlend = \"SrcAlpha\"; DstBlend = \"OneMinusSrcAlpha\"; BlendOp = \"Add\"; }",
+            "RenderTargetFormat0 = \"R8G8B8A8_UNORM\"; RenderTargetFormat1 = \"R16G16B16A16_FLOAT\"; BlendState1 = { BlendEnabled = true; SrcBlend = \"One\"; DstBlend = \"One\"; BlendOp = \"Add\"; }",
+            "RenderTargetFormat0 = \"R8G8B8A8_UNORM\"; BlendState3 = { BlendEnabled = true; SrcBlend = \"One\"; DstBlend = \"Zero\"; BlendOp = \"Add\"; }",
+            "RenderTargetFormat2 = \"R32_FLOAT\"; DepthTargetFormat = \"D32_FLOAT\"; CullMode = \"Back\"; WindingOrder = \"Clockwise\";",
+            "DepthTargetFormat = \"D32_FLOAT\"; CullMode = \"Front\"; WindingOrder = \"CounterClockwise\"; BlendState = { BlendEnabled = false; }",
+            "CullMode = \"None\"; BlendState = { BlendEnabled = true; SrcBlendAlpha = \"One\"; DstBlendAlpha = \"Zero\"; BlendOpAlpha = \"Add\"; }",
+        ];
+        let st = STATES[k % STATES.len()];
+        vec![("main.rssl".into(), format!("float4 VSMAIN(uint vid : SV_VertexID) : SV_Position {{ return float4(0.0, 0.0, 0.0, 1.0); }}\nfloat4 PSMAIN(float4 pos : SV_Position) : SV_Target0 {{ return pos; }}\nPipeline Main {{ VertexShader = VSMAIN; PixelShader = PSMAIN; {} }}\n", st))]
     } else if let Some(k) = spec[0].strip_prefix("layout:") {
         // a buffer element type whose HLSL and Metal layouts differ (odd k) or agree (even k)
         let k: u32 = k.parse().unwrap_or(0);
@@ -179,6 +193,8 @@ pub fn gen_cases(seed: u64, n: usize, _thorough: bool) -> Vec<String> {
     for name in crate::c14::program_names() { for m in ["all", "nopipe"] { out.push(format!("X c14:{} {}", name, m)); } }
     // the layout validation is part of the shared front end: its verdict is the same for every target
     for k in 0..12 { for m in ["all+L", "nopipe+L", "all"] { out.push(format!("X layout:{} {}", k, m)); } }
+    // fixed-function pipeline state is target independent
+    for k in 0..7 { out.push(format!("X gfx:{} all", k)); }
     for name in ["layout", "globals", "groups"] { out.push(format!("X c07:{} all+L", name)); }
     let entries = ["CSMAIN", "main", "kernel", "Main", "compute"];
     for _ in 0..n {
